@@ -7,6 +7,46 @@ Open Scope list_scope.
 Definition parse_default (s : str) : option cond := parse_string tbl_letter tbl_digit s.
 Definition print_default (c : cond) : option str := print_filter tbl_letter tbl_digit tbl_print c.
 
+(* ---- acceptance outside the DOCUMENTED grammar (finding F14) ----
+   The documented filter grammar has no comments, and its keywords and punctuation are bare
+   tokens. The implementation (participle over text/scanner) skips Go comments and lets a
+   quoted string stand for a keyword or punctuation mark whose text it spells. A source is
+   strictly documented when it has no comment and no string token sits in a literal position:
+   the latter is tested by re-parsing with every string token replaced by a string that
+   spells nothing (value positions accept any string, literal positions do not). *)
+Fixpoint has_comment_from (fuel : nat) (instr : bool) (cs : list N) : bool :=
+  match fuel with
+  | O => false
+  | S f =>
+      match cs with
+      | [] => false
+      | c :: r =>
+          if instr then
+            if (c =? 92)%N then match r with _ :: r' => has_comment_from f true r' | [] => false end
+            else if (c =? 34)%N then has_comment_from f false r
+            else has_comment_from f true r
+          else if (c =? 34)%N then has_comment_from f true r
+          else if (c =? 47)%N then
+            match r with
+            | c2 :: _ => if (c2 =? 47)%N || (c2 =? 42)%N then true else has_comment_from f false r
+            | [] => false
+            end
+          else has_comment_from f false r
+      end
+  end.
+Definition has_comment (s : str) : bool :=
+  match dec_str s with Some cs => has_comment_from (S (length cs)) false cs | None => false end.
+
+Definition neutral (t : token) : token :=
+  match t with TStr _ => TStr (cps "_a_string_") | _ => t end.
+
+Definition strict_accepts (s : str) : bool :=
+  negb (has_comment s) &&
+  match lex tbl_letter tbl_digit s with
+  | Some ts => match parse_tokens ts, parse_tokens (map neutral ts) with Some _, Some _ => true | _, _ => false end
+  | None => false
+  end.
+
 Record fcase := mkFcase {
   f_src : str;
   f_ast : option cond;                       (* ParseString result (None = error) *)
@@ -17,13 +57,16 @@ Record fcase := mkFcase {
 (* discrepancy codes:
    1 accept/reject or AST differs        2 evaluation differs from the model's evaluator
    3 printed text differs                4 printed text does not parse back to the same filter
-   5 evaluation differs from the DOCUMENTED semantics (Sem.Documented)   6 evaluation errors *)
+   5 evaluation differs from the DOCUMENTED semantics (Sem.Documented)   6 evaluation errors
+   7 accepted although not a sentence of the DOCUMENTED grammar (comment, or a quoted string in
+     the place of a keyword / punctuation mark) *)
 Definition fcheck (c : fcase) : list nat :=
   let m := parse_default (f_src c) in
   (if opt_eqb cond_eqb m (f_ast c) then [] else [1%nat]) ++
   match f_ast c with
   | None => []
   | Some a =>
+      (if strict_accepts (f_src c) then [] else [7%nat]) ++
       (if forallb (fun e => opt_eqb Bool.eqb (eval a (fst e)) (snd e)) (f_evals c) then [] else [2%nat]) ++
       (if opt_eqb String.eqb (print_default a) (f_print c) then [] else [3%nat]) ++
       (if f_reparse c && opt_eqb cond_eqb (match print_default a with Some t => parse_default t | None => None end) (Some a)
